@@ -308,6 +308,24 @@ fn hostile_txs(n: &Node, thorough: bool) -> Vec<(String, Transaction)> {
             b.into()
         }], vec![]),
     ));
+    // the same covenant of weight about 0.6 * 2^128 (never executed) listed twice, three times, and next to a light one: the sum of
+    // the weights exceeds 128 bits although each one fits
+    {
+        use OpCode::*;
+        let mut ops = vec![Loop(40000, 8)];
+        for b in (1..=7u16).rev() {
+            ops.push(Loop(65535, b));
+        }
+        ops.push(Noop);
+        let big = Covenant::from_ops(&ops).to_bytes();
+        for (name, covs) in [
+            ("the same 0.6*2^128-weight covenant twice", vec![cov_true().to_bytes(), big.clone(), big.clone()]),
+            ("the same 0.6*2^128-weight covenant three times", vec![cov_true().to_bytes(), big.clone(), big.clone(), big.clone()]),
+            ("one 0.6*2^128-weight covenant", vec![cov_true().to_bytes(), big.clone()]),
+        ] {
+            v.push((name.into(), mktx(TxKind::Normal, vec![m0.0], vec![out_t(mv, Denom::Mel)], 0, covs, vec![])));
+        }
+    }
     // (f) signatures
     for (name, sigs) in [("empty-sig", vec![Bytes::new()]), ("huge-sig", vec![Bytes::from(vec![1u8; 100_000])]), ("1000-sigs", (0..1000).map(|_| Bytes::from_static(b"x")).collect())] {
         let mut t = tx_t(TxKind::Normal, vec![m0.0], vec![out_t(mv, Denom::Mel)], 0, vec![]);
